@@ -30,6 +30,8 @@ def succs (x : X) : List X :=
     match step s l with
     | some s' => [f { x with s := s' }]
     | none => []
+  -- a Send waits for its turn (one at a time goes on to the queue); the pause point `client.send.checked` lies behind the turn
+  let turns := s.waiting.flatMap fun id => try1 (.turnTake id) ++ try1 (.turnQuit id)
   let senders := if x.armS then [] else s.locked.flatMap fun id => try1 (.sendEnq id) ++ try1 (.sendQuit id)
   let enc := if x.armT then [] else match s.writer with
     | .hold _ =>
@@ -43,7 +45,7 @@ def succs (x : X) : List X :=
     ++ (if s.connOk then [] else try1 .rDecodeErr)
   let pair := if x.armR then [] else try1 .rPair ++ try1 .rPairQuit
   let drain := if x.armD then [] else try1 .sDrainPending ++ try1 .sDrainProcessing ++ try1 .sDrainDone
-  senders ++ try1 .wTake ++ try1 .wQuitTop ++ enc ++ hand ++ rd ++ pair
+  turns ++ senders ++ try1 .wTake ++ try1 .wQuitTop ++ enc ++ hand ++ rd ++ pair
     ++ try1 .sReaderGone ++ try1 .sWriterGone ++ try1 .sLock ++ drain
 
 /-- all states in which nothing internal is enabled any more, reachable from `todo` -/
@@ -146,7 +148,7 @@ def handle (kind : String) (args : List String) (impl : String) : String :=
     -- answered by the filter (`wFilterStop`), the others are encoded and handed over.  `nothing_left_in_the_write_buffer`:
     -- at the end the buffer is empty, so the backend has received every request that was encoded and answers it.
     let n := toks.length
-    let queue : List Label := (List.range n).flatMap fun i => [.sendBegin i, .sendEnq i]
+    let queue : List Label := (List.range n).flatMap fun i => [.sendBegin i, .turnTake i, .sendEnq i]
     let writer : List Label := toks.flatMap fun tk => if tk == "a" then [.wTake, .wFilterStop] else [.wTake, .wEncodeOk, .wHandoff]
     match run ({ cap := 1024 } : Cl) (queue ++ writer) with
     | none => "bad-op"
